@@ -1,6 +1,8 @@
 import ActixNet.Lemmas.SrvWake
 import ActixNet.Lemmas.SrvFuel
 import ActixNet.Lemmas.SrvProgress
+import ActixNet.Lemmas.SrvLive
+import ActixNet.Lemmas.SrvProgressF
 /-!
 # C03 — back-pressure releases: spare worker capacity is always used (no lost wake-up)
 
@@ -189,6 +191,60 @@ theorem no_lost_wakeup (cfg : Cfg) (ok : CfgOk cfg) (kinds : List Kind) (ops : L
     · rw [hany] at h; cases h
     · cases h
 
+/-- **C03 with worker deaths** ("… some *live* worker has fewer than `max_concurrent_connections`
+connections in progress …").  In every reachable state of EVERY history — workers may die idle, loaded or
+saturated at any yield point, their connections may finish later, the server may start replacements, late
+notifications of dead workers may arrive at any time — at an iteration boundary and not stopped: if a live
+worker incarnation `w` that is in the rotation has spare capacity and no wake-up for its index is in flight
+(neither about to be pushed by `w` nor queued), then its availability bit is set, hence every listener that
+is in the poll set and not backing off has nothing waiting unless a readiness event for it is pending.
+Uses the one-sided invariant `Live` (Lemmas/SrvLive.lean), which — unlike the exact invariant `Good` —
+survives worker deaths. -/
+theorem no_lost_wakeup_with_faults (cfg : Cfg) (ok : CfgOk cfg) (kinds : List Kind) (ops : List Op)
+    (ho : OpsOk cfg (init cfg kinds) ops)
+    (hwb : (run cfg (init cfg kinds) ops).spuriousWB = false)
+    (hne : (run cfg (init cfg kinds) ops).exited = false)
+    (w : Nat) (hw : w < (run cfg (init cfg kinds) ops).nWk)
+    (hal : ((run cfg (init cfg kinds) ops).wk w).alive = true)
+    (hh : w ∈ (run cfg (init cfg kinds) ops).handles)
+    (hspare : inProgress (run cfg (init cfg kinds) ops) w < cfg.limit)
+    (htokp : ((run cfg (init cfg kinds) ops).wk w).tokp = 0)
+    (hcnt : (run cfg (init cfg kinds) ops).wq.count (.workerAvail ((run cfg (init cfg kinds) ops).wk w).idx) = 0)
+    (l : Nat) (hl : l < (run cfg (init cfg kinds) ops).nLst)
+    (hreg : ((run cfg (init cfg kinds) ops).lst l).registered = true)
+    (hdl : ((run cfg (init cfg kinds) ops).lst l).deadline = none)
+    (hedge : ((run cfg (init cfg kinds) ops).lst l).edge = false) :
+    (run cfg (init cfg kinds) ops).avail ((run cfg (init cfg kinds) ops).wk w).idx = true ∧
+    ((run cfg (init cfg kinds) ops).lst l).backlog = [] := by
+  have inv := run_nlp ok ops _ (init_nlp cfg kinds)
+  generalize hS : run cfg (init cfg kinds) ops = S at *
+  -- the live worker with spare capacity is marked available …
+  have hav : S.avail (S.wk w).idx = true := by
+    cases hav : S.avail (S.wk w).idx with
+    | true => rfl
+    | false =>
+      have lw := inv.live.lw w hw hal
+      simp only [LiveW, LWn, core, inv.pn, pendIs_none] at lw
+      have := lw.2 hh hav htokp hcnt
+      have h1 := lw.1
+      simp only [inProgress, qOf] at hspare h1
+      simp at h1
+      omega
+  refine ⟨hav, ?_⟩
+  have hidx : (S.wk w).idx < cfg.nIdx := inv.np.sound.idxlt w hw
+  have hany : anyAvail cfg S = true := by
+    unfold anyAvail; exact List.any_eq_true.mpr ⟨_, List.mem_range.mpr hidx, hav⟩
+  -- … so no registered, event-less, non-backing-off listener can have anything waiting
+  have hj := (run_JInv cfg ops _ (init_JInv cfg kinds) ho).j (run_fault_none ok kinds ops)
+  rw [hS] at hj
+  have hj := hj hwb hne
+  cases hb : (S.lst l).backlog with
+  | nil => rfl
+  | cons c b =>
+    rcases hj l hl ⟨hreg, hedge, by rw [hb]; simp, hdl⟩ with h | h
+    · rw [hany] at h; cases h
+    · cases h
+
 /-- **Progress**: in every reachable state of a fault-free history in which some worker is marked
 available, the connection waiting first on listener `l` is dispatched by the next `accept` on `l`
 (which is what the pending readiness event of `no_lost_wakeup` triggers) — with any fuel ≥ 1, and
@@ -201,6 +257,21 @@ theorem waiting_connection_is_dispatched (cfg : Cfg) (ok : CfgOk cfg) (kinds : L
     (hb : ((run cfg (init cfg kinds) ops).lst l).backlog = c :: b) :
     ∃ w, (c, w) ∈ (accept cfg (fuel + 1) (run cfg (init cfg kinds) ops) l).dispatched :=
   reachable_accept_dispatches_waiting ok kinds ops hf fuel l c b hany hi hb
+
+/-- **Progress with worker deaths**: in every reachable state of EVERY history (workers may have died at any
+point, late notifications, replacements) in which some availability bit is set, the connection waiting
+first on listener `l` is — by the next `accept` on `l`, with any fuel ≥ 1, when no other thread interferes
+at its yield points — dispatched to a worker, or dropped because not a single worker handle was left
+(every worker dead and discovered: the only way the accept thread gives a connection up).  With
+`no_lost_wakeup_with_faults` this is the property's "eventually dispatched" for histories with faults. -/
+theorem waiting_connection_is_dispatched_with_faults (cfg : Cfg) (ok : CfgOk cfg) (kinds : List Kind) (ops : List Op)
+    (fuel l : Nat) (c : Conn) (b : List Conn)
+    (hany : anyAvail cfg (run cfg (init cfg kinds) ops) = true)
+    (hi : ((run cfg (init cfg kinds) ops).lst l).inject = [])
+    (hb : ((run cfg (init cfg kinds) ops).lst l).backlog = c :: b) :
+    (∃ w, (c, w) ∈ (accept cfg (fuel + 1) (run cfg (init cfg kinds) ops) l).dispatched) ∨
+      c ∈ (accept cfg (fuel + 1) (run cfg (init cfg kinds) ops) l).dropped :=
+  reachable_accept_places_waiting ok kinds ops fuel l c b hany hi hb
 
 /-- … and nothing that was dispatched is ever un-dispatched by `accept` -/
 theorem dispatch_log_only_grows (cfg : Cfg) (fuel : Nat) (s : St) (l : Nat) :
@@ -222,5 +293,30 @@ example : anyAvail demoCfg (run demoCfg (init demoCfg [.tcp]) [.env (.connect 0)
 example : OpsOk demoCfg (init demoCfg [.tcp]) demoOps := by
   simp only [OpsOk, demoOps, and_true, true_and]
   refine ⟨?_, ?_⟩ <;> (unfold OrderOk; decide)
+
+/-! ### Non-vacuity of `no_lost_wakeup_with_faults`: worker 0 dies with a connection in progress and is never
+discovered (its bit was already clear); worker 1 goes on serving: saturated → released → the waiting
+connection is dispatched to it → released again.  All hypotheses hold in the final state. -/
+def faultCfg : Cfg := { limit := 1, nIdx := 2 }
+def faultOps : List Op :=
+  [.env (.connect 0), .env (.connect 0), .poll [.listener 0, .waker] [],
+   .env (.recv 0), .env (.recv 1), .env (.die 0), .env (.connect 0),
+   .poll [.listener 0, .waker] [], .env (.finishNow 1 none), .poll [.waker] [],
+   .env (.recv 1), .env (.finishNow 1 none), .poll [.waker] []]
+example : let S := run faultCfg (init faultCfg [.tcp]) faultOps
+    S.spuriousWB = false ∧ S.exited = false ∧ 1 < S.nWk ∧ (S.wk 1).alive = true ∧ 1 ∈ S.handles ∧
+    inProgress S 1 < faultCfg.limit ∧ (S.wk 1).tokp = 0 ∧ S.wq.count (.workerAvail (S.wk 1).idx) = 0 ∧
+    0 < S.nLst ∧ (S.lst 0).registered = true ∧ (S.lst 0).deadline = none ∧ (S.lst 0).edge = false ∧
+    (S.wk 0).alive = false ∧ 0 ∈ S.handles ∧ S.dispatched.length = 3 := by decide
+-- while both were saturated (worker 0 dead, worker 1 busy) the third connection waited
+example : ((run faultCfg (init faultCfg [.tcp]) (faultOps.take 8)).lst 0).backlog.length = 1 := by decide
+-- hypotheses of `waiting_connection_is_dispatched_with_faults` in a state with a dead, undiscovered worker:
+-- worker 1 has just been marked available again, worker 0 (dead) still has its handle, a connection arrives
+example : let S := run faultCfg (init faultCfg [.tcp]) (faultOps ++ [.env (.connect 0)])
+    anyAvail faultCfg S = true ∧ (S.lst 0).inject = [] ∧ (S.lst 0).backlog = [(3, 0)] ∧ (S.wk 0).alive = false ∧
+    (accept faultCfg 3 S 0).dispatched.getLast? = some ((3, 0), 1) := by decide
+example : OpsOk faultCfg (init faultCfg [.tcp]) faultOps := by
+  simp only [OpsOk, faultOps, and_true, true_and]
+  refine ⟨?_, ?_, ?_, ?_⟩ <;> (unfold OrderOk; decide)
 
 end ActixNet.C03
